@@ -419,13 +419,23 @@ def rule_r7(facts, col):
                 if amount.k != "call":
                     continue
                 key = "%s:amount-vs-need" % body.q
-                if rel == "Lt":
-                    col.ok("C04.R7", key, body.where(bb), "amount < need (strict)")
-                else:
+                # the outcome of the comparison that contains `amount == need` must lead to the verdict false only
+                eq_outcome = {"Lt": False, "Gt": False, "Ne": False, "Le": True, "Ge": True, "Eq": True}[rel]
+                bad_ret = []
+
+                def seen(b2, v, bad_ret=bad_ret):
+                    if body.term(b2)["k"] == "return" and v.get(0) is not False:
+                        bad_ret.append(b2)
+                r, edges = flag_search(body, [0], stmt_results={(bb, si): eq_outcome}, on_state=seen)
+                if edges is None:
+                    col.silent("C04.R7", key, body.where(bb), "path search gave up")
+                elif bad_ret:
                     col.bad("C04.R7", key, "%s:%d" % (st["sp"]["f"], st["sp"]["l"]),
-                            "the verdict compares the buffered amount with the request using `%s` instead of `<`: with exactly `need` "
-                            "samples buffered and the peer gone, the request is declared impossible although it is satisfied; the runner "
-                            "retires the block with those samples unprocessed" % rel, {})
+                            "with exactly `need` samples buffered (amount == need, the `%s` outcome of `amount %s need`) the verdict can be "
+                            "non-false: the request is declared impossible although it is satisfied, and the runner retires the block with "
+                            "those samples unprocessed" % (eq_outcome, rel), {})
+                else:
+                    col.ok("C04.R7", key, body.where(bb), "amount == need always yields false (comparison `amount %s need`)" % rel)
 
 
 LOSSY = {"std::cmp::min", "std::cmp::Ord::min", "std::cmp::Ord::clamp"}
